@@ -398,14 +398,27 @@ impl Searcher {
 
         // First thing to do is check the transposition table to see if we've
         // searched this position to a greater depth than we're about to search now
+        // The best line is read back from the table starting at the root, so a worker
+        // that answers the root from a stored entry has to leave that entry in place:
+        // it may otherwise be displaced from its bucket before the line is rebuilt
+        let mut stored_root_entry: Option<TranspositionEntry> = None;
+
         if let Some(entry) = transpositions.find(state_hash) {
             let remaining_depth = max_depth - current_depth;
             let remaining_depth_in_transposition = entry.max_depth - entry.depth;
             if remaining_depth_in_transposition >= remaining_depth {
+                if current_depth == 0 {
+                    stored_root_entry = Some(entry);
+                }
+
                 // We've already searched this position to a greater depth than we're
                 // about to search now, so we can use the existing evaluation
                 match entry.kind {
                     EvaluationKind::Exact => {
+                        if current_depth == 0 {
+                            transpositions.insert(state_hash, entry);
+                        }
+
                         return Ok(entry.evaluation);
                     }
                     EvaluationKind::UpperBound => {
@@ -417,6 +430,10 @@ impl Searcher {
                 }
 
                 if alpha >= beta {
+                    if current_depth == 0 {
+                        transpositions.insert(state_hash, entry);
+                    }
+
                     return Ok(entry.evaluation);
                 }
             }
@@ -550,6 +567,9 @@ impl Searcher {
                     max_depth,
                 },
             );
+        } else if let Some(entry) = stored_root_entry {
+            // No move improved on the bound taken from the stored root entry
+            transpositions.insert(state_hash, entry);
         }
 
         Ok(alpha)
